@@ -27,6 +27,16 @@ var verifC06Pairs = [][2]string{
 	{"(@a < @b) is unknown", "not ((@a < @b) is true or (@a < @b) is false)"},
 	{"@a < @b and @b < @c", "not (not (@a < @b) or not (@b < @c))"},
 	{"(@a, @b) = (@b, @c)", "(@a, @b) in ((@b, @c))"},
+	// lists that come from subqueries: s holds @b and @c, e holds no row (ANY over nothing is FALSE, ALL TRUE)
+	{"@a in (select v from s)", "@a = @b or @a = @c"},
+	{"@a not in (select v from s)", "@a <> @b and @a <> @c"},
+	{"@a <= all (select v from s)", "@a <= @b and @a <= @c"},
+	{"@a in (select v from e)", "false"},
+	{"@a not in (select v from e)", "true"},
+	{"@a = any (select v from e)", "false"},
+	{"@a < all (select v from e)", "true"},
+	{"(@a, @b) in (select v, v from e)", "false"},
+	{"exists (select v from e)", "false"},
 }
 
 var verifC06Exprs [][2]parser.QueryExpression
@@ -79,9 +89,12 @@ func VerifC06Expansions() {
 	scope := NewReferenceScope(tx)
 	pi := verifChoice("pair", len(verifC06Pairs))
 	floats := verifBool("floats")
+	b, c := verifC06Value("b.", floats), verifC06Value("c.", floats)
 	verifVar(scope, "a", verifC06Value("a.", floats))
-	verifVar(scope, "b", verifC06Value("b.", floats))
-	verifVar(scope, "c", verifC06Value("c.", floats))
+	verifVar(scope, "b", b)
+	verifVar(scope, "c", c)
+	verifTempTable(scope, "s", []string{"v"}, [][]value.Primary{{b}, {c}})
+	verifTempTable(scope, "e", []string{"v"}, [][]value.Primary{})
 	l, err1 := Evaluate(verifCtx(), scope, verifC06Exprs[pi][0])
 	r, err2 := Evaluate(verifCtx(), scope, verifC06Exprs[pi][1])
 	verifAssert("both sides evaluate", verifAnd(err1 == nil, err2 == nil))
